@@ -20,6 +20,7 @@ Clause(e, obs) ==
 RECURSIVE Run(_, _, _)
 Run(s, steps, l) ==
   IF l > Len(steps) THEN [at |-> 0, clause |-> "ok", exp |-> <<>>]
+  ELSE IF ~Enabled(s, steps[l].inp) THEN [at |-> l, clause |-> "harness-input-not-enabled", exp |-> <<s>>]
   ELSE LET e == Eff(s, steps[l].inp)
            c == Clause(e, steps[l].obs)
        IN IF c = "ok" THEN Run(e.s, steps, l + 1) ELSE [at |-> l, clause |-> c, exp |-> <<e.out, e.s>>]
